@@ -1,5 +1,6 @@
 import SparseSpace.Lemmas.FuncCache
 import SparseSpace.Lemmas.FuncCacheAnalytic
+import SparseSpace.Lemmas.FuncCacheTransCorner
 import Mathlib.Data.Finset.Card
 /-!
 # C12 — function evaluation is cache-transparent and matches its analytic integral
@@ -291,5 +292,92 @@ example : anaLinear (α := ℚ) [1, 2] [1, -1] [2, 3] = 12 := by decide +kernel
 example : anaPoly1d (α := ℚ) [1, 2, 3] 1 2 = 11 := by decide +kernel
 example : anaConst (α := ℚ) 3 [0, 1] [2, 3] = 12 := by decide +kernel
 example : ∀ se ∈ List.zip [(1 : ℚ), -2] [(2 : ℚ), -1], se.2 - se.1 = 1 := by decide +kernel
+
+/-! ## Part C — analytic integrals of the transcendental classes
+
+`Model/AnalyticTrans` writes each `eval` / `getAnalyticSolutionIntegral` pair once over a carrier with the class
+`NumOps` (exp, cos, sin, arctan, real power, π).  The driver runs the `Float` instance (ops `anaT`, `evlT`, tied to the
+Python values at 1e-12); the theorems below are about the `ℝ` instance (`instNumOpsReal`: Mathlib's `Real.exp`, …) of
+THE SAME terms: the formula equals the iterated interval integral `iint` of the modelled point evaluation, in every
+dimension, for all real parameters and boxes subject to the stated side conditions (each is the domain of the class
+or a condition without which the code itself divides by zero). -/
+section PartC
+open SparseSpace.AnalyticTrans
+
+/-- GenzProductPeak: every box (any order of start/end), every midpoint, coefficients ≠ 0 (`coeffs ** (-2)`) -/
+theorem productPeak_integral (c m s e : List ℝ) (hc : ∀ x ∈ c, x ≠ 0)
+    (hm : m.length = c.length) (hs : s.length = c.length) (he : e.length = c.length) :
+    iint (List.zip s e) (evalProductPeak c m) = anaProductPeak c m s e :=
+  AnalyticTrans.productPeak_integral c m s e hc hm hs he
+
+/-- GenzC0: every position of the kink relative to the box (left of it, inside, right of it, on an end: the four
+branches of the code), coefficients ≠ 0 (the formula divides by them), `start ≤ end` -/
+theorem c0_integral (c m s e : List ℝ) (hc : ∀ x ∈ c, x ≠ 0) (hse : ∀ se ∈ List.zip s e, se.1 ≤ se.2)
+    (hm : m.length = c.length) (hs : s.length = c.length) (he : e.length = c.length) :
+    iint (List.zip s e) (evalC0 c m) = anaC0 c m s e :=
+  AnalyticTrans.c0_integral c m s e hc hse hm hs he
+
+/-- GenzDiscontinious: every position of the border (beyond the box → 0, inside → integral up to the border, before
+the box start → early `return 0.0`), coefficients ≠ 0 of either sign, `start ≤ end` -/
+theorem disc_integral (c b s e : List ℝ) (hc : ∀ x ∈ c, x ≠ 0) (hse : ∀ se ∈ List.zip s e, se.1 ≤ se.2)
+    (hb : b.length = c.length) (hs : s.length = c.length) (he : e.length = c.length) :
+    iint (List.zip s e) (evalDisc c b) = anaDisc c b s e :=
+  AnalyticTrans.disc_integral c b s e hc hse hb hs he
+
+/-- GenzDiscontinious2: both components of the value and of the integral are those of GenzDiscontinious -/
+theorem disc2_integral (c b s e : List ℝ) (hc : ∀ x ∈ c, x ≠ 0) (hse : ∀ se ∈ List.zip s e, se.1 ≤ se.2)
+    (hb : b.length = c.length) (hs : s.length = c.length) (he : e.length = c.length) :
+    anaDisc2 c b s e = [iint (List.zip s e) (fun xs => (evalDisc2 c b xs).getD 0 0),
+                        iint (List.zip s e) (fun xs => (evalDisc2 c b xs).getD 1 0)] := by
+  have h := AnalyticTrans.disc_integral c b s e hc hse hb hs he
+  simp only [anaDisc2, evalDisc2, List.getD_cons_zero, List.getD_cons_succ]
+  rw [← h]
+
+/-- FunctionExpVar: every dimension `n` (exponent `1/n`, prefactor `(1+1/n)^n`), every box; the real power is numpy's
+on the function's domain `x ≥ 0` -/
+theorem expVar_integral (s e : List ℝ) (he : e.length = s.length) :
+    iint (List.zip s e) evalExpVar = anaExpVar s e :=
+  AnalyticTrans.expVar_integral s e he
+
+/-- GenzOszillatory: every coefficient vector INCLUDING zero coefficients (their dimensions contribute their length;
+all zero: the repaired branch), every offset, every box: sign `(-1)^⌊n/2⌋`, `sin` for an odd and `cos` for an even number
+`n` of non-zero coefficients, signed sum over the `2^n` corners -/
+theorem osz_integral (c : List ℝ) (o : ℝ) (s e : List ℝ) (hs : s.length = c.length) (he : e.length = c.length) :
+    iint (List.zip s e) (evalOsz c o) = anaOsz c o s e :=
+  AnalyticTrans.osz_integral c o s e hs he
+
+/-- GenzCornerPeak on its domain (positive coefficients, boxes in the non-negative orthant, so that `1 + Σ c x > 0`):
+factor `(-1)^n / (n! Π c)` times the signed corner sum of `1/(1 + Σ c v)` -/
+theorem cornerPeak_integral (c s e : List ℝ) (hc : ∀ x ∈ c, 0 < x)
+    (hbox : ∀ se ∈ List.zip s e, 0 ≤ se.1 ∧ se.1 ≤ se.2)
+    (hs : s.length = c.length) (he : e.length = c.length) :
+    iint (List.zip s e) (evalCornerPeak c) = anaCornerPeak c s e :=
+  AnalyticTrans.cornerPeak_integral c s e hc hbox hs he
+
+/-- the engine behind the last two: for a chain of antiderivatives `G 0, …, G N` on a domain that the box never leaves,
+the iterated integral of `G k (φ + Σ c_d x_d)` is `Π_{c_d = 0} (e_d - s_d) · (Π_{c_d ≠ 0} c_d)⁻¹ ·` signed corner sum
+of `G (k + #non-zero)` -/
+theorem corner_sum_integral (G : ℕ → ℝ → ℝ) (D : Set ℝ) (N : ℕ) (hG : AntiChain G D N) (dims : List (ℝ × ℝ × ℝ))
+    (hadm : Adm D dims) (k : ℕ) (hk : k + (dims.filter (fun d => nonzero d.1)).length ≤ N) (φ : ℝ) (hφ : φ ∈ D) :
+    iint (boxOf dims) (fun xs => G k (φ + lin dims xs)) =
+      ((dims.filter (fun d => !nonzero d.1)).map (fun d => d.2.2 - d.2.1)).prod *
+      (1 / ((dims.filter (fun d => nonzero d.1)).map (·.1)).prod) *
+      cornerSum (G (k + (dims.filter (fun d => nonzero d.1)).length)) (dims.filter (fun d => nonzero d.1)) φ :=
+  iint_corner G D N hG dims hadm k hk φ hφ
+
+/-! non-vacuity of Part C: the side conditions are satisfiable by concrete boxes / parameters, and both chains exist -/
+example : (∀ x ∈ [(1 : ℝ), 3 / 2], x ≠ 0) ∧ (∀ se ∈ List.zip [(0 : ℝ), 1 / 2] [(1 : ℝ), 2], se.1 ≤ se.2) := by
+  constructor <;> (simp; try norm_num)
+example : (∀ x ∈ [(1 : ℝ), 3 / 2], 0 < x) ∧ (∀ se ∈ List.zip [(0 : ℝ), 1 / 2] [(1 : ℝ), 2], 0 ≤ se.1 ∧ se.1 ≤ se.2) := by
+  constructor <;> (simp; try norm_num)
+example : AntiChain oszG Set.univ 5 := oszG_chain 5
+example : AntiChain (cpG 3) (Set.Ioi 0) 3 := cpG_chain 3
+/-- the formulas are not trivially 0: a 1-dimensional instance of each engine evaluated by hand -/
+example : anaExpVar [(0 : ℝ)] [1] = 1 := by
+  simp [anaExpVar, mulLoop_eq, NumOps.rpow]
+example : anaOsz [(0 : ℝ)] 0 [0] [3] = 3 := by
+  simp [anaOsz, nonzero, mulLoop_eq, NumOps.cos, NumOps.pi]
+
+end PartC
 
 end SparseSpace.C12
